@@ -8,6 +8,7 @@ package concdrv
 
 import (
 	"context"
+	"errors"
 	"fmt"
 	"io"
 	"math/rand"
@@ -36,6 +37,8 @@ type Cfg struct {
 	// Storm: the sessions do nothing but announce election ids, all of them at the same moment in every round
 	// (distinct ids, increasing from round to round), so that their compare-and-set sections contend
 	Storm bool
+	// CutSession > 0: the transport of that session (1-based) fails in the middle of a batch half-way through the run
+	CutSession int
 }
 
 // cyclic barrier whose parties may leave
@@ -291,6 +294,21 @@ func Run(sink ribdrv.Sink, c Cfg) (hangs int, err error) {
 					ops = append(ops, o)
 					req.Operation = append(req.Operation, p)
 				}
+				if c.CutSession == i+1 && r >= c.Rounds/2 && len(req.Operation) >= 2 {
+					// the transport of this session dies while the server works through this batch: its RPC must end,
+					// the others must not notice
+					ms.FailSends(errors.New("transport is closing"))
+					if !send(req, "operations") {
+						return
+					}
+					select {
+					case <-done:
+					case <-abort:
+					case <-time.After(10 * time.Second):
+						note(l + ": Modify did not return after its transport failed in the middle of a batch")
+					}
+					return
+				}
 				if !send(req, "operations") {
 					return
 				}
@@ -383,6 +401,38 @@ func Run(sink ribdrv.Sink, c Cfg) (hangs int, err error) {
 				time.Sleep(200 * time.Microsecond)
 			}
 		}(g)
+	}
+	if c.Storm {
+		// sessions that come and go while the elections run: newClient / deleteClient against the compare-and-set
+		for g := 0; g < 2; g++ {
+			aux.Add(1)
+			go func() {
+				defer aux.Done()
+				<-start
+				for {
+					select {
+					case <-stopAux:
+						return
+					case <-abort:
+						return
+					default:
+					}
+					cs := srvdrv.NewModStream()
+					cd := make(chan error, 1)
+					go func() { cd <- srv.Modify(cs) }()
+					time.Sleep(20 * time.Microsecond)
+					cs.Close(io.EOF)
+					select {
+					case <-cd:
+					case <-abort:
+						return
+					case <-time.After(10 * time.Second):
+						note("churn: Modify did not return after half-close")
+						return
+					}
+				}
+			}()
+		}
 	}
 	close(start)
 	wg.Wait()
